@@ -55,7 +55,8 @@ RULE = (
     " combinations + swap (thorough: all pairs of the first 8 symbols x 9 + swap), other"
     " shapes = first pair (symbol inside a nested argument, neighbour) (thorough: first six x"
     " 3 + swap); shapes with a symbolic angular momentum: maps of that symbol only; each map"
-    " via subs and via xreplace; merging maps symbol -> neighbouring symbol of the same"
+    " via subs and via xreplace; every instance is also built with its keywords in reversed"
+    " order (same object required); merging maps symbol -> neighbouring symbol of the same"
     " category; PoolSum: bound index -> 5 together with a free symbol -> fresh symbol; law 2: all pairs of instances of a class + twin objects +"
     " classes with the same field signature; non-trivial = the map changes the expression /"
     " the compared objects were built separately; distinct = (class, shape, map, method)"
@@ -614,6 +615,22 @@ def check_shape(rec: Recorder, desc, tier: str, seed: int, is_base: bool = False
     if known:
         rec.count("shapes_with_known_predicate")
     sid = _shape_id(desc)
+
+    # ---- law 2 (construction): keyword arguments written in another order give the same object
+    if desc[0] == "inst" and len(desc[2]) > 1:
+        try:
+            kwargs = {k: R.build(v) for k, v in reversed(list(desc[2].items()))}
+            e_rev = info.cls(**kwargs)
+            rec.n_eval += 1
+            if not (e_rev == e) or hash(e_rev) != hash(e) or e_rev.args != e.args or R.canon(e_rev) != R.canon(e):
+                rec.bad("2", f"keywords in reversed order build {_short(e_rev)} with args {_short(e_rev.args)},"
+                             f" in field order {_short(e)} with args {_short(e.args)}", desc, False,
+                        ["keyword-order"])
+            else:
+                rec.out("law2:keyword-order-irrelevant")
+        except Exception as exc:  # noqa: BLE001
+            rec.bad("2", f"construction with reversed keyword order raised {type(exc).__name__}: {_short(exc)}",
+                    desc, False, ["keyword-order", "exception"])
 
     # ---- law 3: rebuild from own arguments
     attrs = R.nonsympy_attrs(e)
